@@ -62,7 +62,13 @@ def main():
                 row["tests"] = last[0] if last else "?"
             for c in checks_for(patch, override):
                 env = dict(os.environ, VERIF_REPO=wt, VERIF_SEED=a.seed)
+                # the evidence file must keep describing the run against the real tree: save and restore it
+                ev = os.path.join(VERIF, "evidence", c + ".json")
+                saved = open(ev).read() if os.path.exists(ev) else None
                 p = run([os.path.join(VERIF, "check"), c, "--tier", a.tier], env=env, cwd=VERIF)
+                if saved is not None:
+                    with open(ev, "w") as f:
+                        f.write(saved)
                 vio = [l for l in p.stdout.splitlines() if l.startswith("VIOLATION")]
                 row[c] = "rc=%d %s" % (p.returncode, vio[0] if vio else "")
                 if vio and "replay=" in vio[0]:
